@@ -98,7 +98,9 @@ def extract(body, start, stops, atoms, events=None, outcome_local=None, max_path
                     env[d] = ("discr", src[1], src[2] if len(src) > 2 else True)
                 else:
                     pa = atoms.of_place(body, pl)
-                    if pa is not None:
+                    if pa is not None and pa[0] == "variants":
+                        env[d] = ("vdiscr", pa[1], pa[2])
+                    elif pa is not None:
                         env[d] = ("discr", pa[0], pa[1])
                     else:
                         env[d] = ("unk", None)
@@ -141,7 +143,7 @@ def extract(body, start, stops, atoms, events=None, outcome_local=None, max_path
             if es is not None and not es[0]["p"] and body.local_ty(es[0]["l"]).startswith(("std::task::Poll<", "core::task::Poll<")):
                 walk(arms.get(0, other), env, asg, evs, seen)
                 return
-            if v[0] not in ("const", "atom", "discr") and _macro_internal(t, blk):
+            if v[0] not in ("const", "atom", "discr", "vdiscr") and _macro_internal(t, blk):
                 tg = []
                 for tgt in list(arms.values()) + [other]:
                     if tgt not in tg and body.blocks[tgt]["term"]["k"] != "unreachable":
@@ -163,6 +165,23 @@ def extract(body, start, stops, atoms, events=None, outcome_local=None, max_path
                     a2[name] = aval
                     tgt = arms.get(1 if truth else 0, other)
                     walk(tgt, env, a2, evs, seen)
+                return
+            if v[0] == "vdiscr":
+                prefix, vnames = v[1], v[2]
+                listed = [a[0] for a in t["arms"]]
+                for val, tgt in list(arms.items()) + [(None, other)]:
+                    if body.blocks[tgt]["term"]["k"] == "unreachable":
+                        continue
+                    a2 = dict(asg)
+                    okp = True
+                    for lv in listed:
+                        nm = prefix + (vnames[lv] if lv < len(vnames) else str(lv))
+                        want = (lv == val)
+                        if nm in a2 and a2[nm] != want:
+                            okp = False
+                        a2[nm] = want
+                    if okp:
+                        walk(tgt, env, a2, evs, seen)
                 return
             if v[0] == "discr":
                 name = v[1]
